@@ -35,6 +35,8 @@ Entry = (file relative to the repository, identifier, kind, scope).  Kinds:
     env                    `env::var*` / `env::args*`
     hash-container         `HashMap`, `HashSet`, `RandomState`, `DefaultHasher`, `hash_map`, `hash_set`,
                            `BuildHasher` (iteration order depends on a per-instance random state)
+    ambient-input          `SystemTime`, `Instant`, `thread_rng`, `getrandom`, `OsRng`, `ThreadId`,
+                           `available_parallelism`, `hostname`, `temp_dir`, `current_dir`, `current_exe`, `process`
     arc-identity           `ptr_eq`, `as_ptr`, `make_mut`, `Arc::get_mut`, `strong_count`, `weak_count`,
                            `into_raw`, `from_raw`
     pyclass-mutable        `#[pyclass…]` without `frozen` (identifier = the struct's name)
@@ -63,6 +65,9 @@ STATE_NAMES = {"LazyLock", "OnceLock", "OnceCell", "Once", "Cell", "RefCell", "U
 # key up is a function of the content, iterating is not; every occurrence outside a `use` declaration
 # and outside the type of a `static` item is listed (kind hash-container)
 HASH_NAMES = {"HashMap", "HashSet", "RandomState", "DefaultHasher", "hash_map", "hash_set", "BuildHasher"}
+# other ambient inputs: clocks, randomness, the identity of the running thread, the machine
+AMBIENT_NAMES = {"SystemTime", "Instant", "thread_rng", "getrandom", "OsRng", "ThreadId", "available_parallelism",
+                 "hostname", "temp_dir", "current_dir", "current_exe", "process"}
 ARC_IDENTITY = {"ptr_eq", "as_ptr", "make_mut", "strong_count", "weak_count", "into_raw", "from_raw"}
 LOG_LEVELS = {"error", "warn", "info", "debug", "trace", "log"}
 
@@ -285,6 +290,8 @@ def scan_file(rel, text):
             entries.append((rel, f"env::{toks[i + 3]}", "env", scope()))
         elif t in HASH_NAMES:
             entries.append((rel, t, "hash-container", scope()))
+        elif t in AMBIENT_NAMES:
+            entries.append((rel, t, "ambient-input", scope()))
         elif t in ARC_IDENTITY:
             entries.append((rel, t, "arc-identity", scope()))
         elif t == "get_mut" and toks[i - 3:i] == ["Arc", ":", ":"]:
